@@ -20,7 +20,7 @@ fn histex_check(prop: &str, tier: &str, plans: &[HxPlan], owned: &[&str], note: 
 fn histex_part(run: &mut Run, tier: &str, plans: &[HxPlan], owned: &[&str], note: &str) {
     let (mut states, mut trans) = (0u64, 0u64);
     let mut fams = vec![];
-    let cap_total: f64 = std::env::var("VERIF_CAP_SECS").ok().and_then(|s| s.parse().ok()).unwrap_or(if tier == "quick" { 45.0 } else { 780.0 });
+    let cap_total: f64 = std::env::var("VERIF_CAP_SECS").ok().and_then(|s| s.parse().ok()).unwrap_or(if tier == "quick" { 45.0 } else if crate::common::is_sub() { 300.0 } else { 600.0 });
     let per = cap_total / plans.len() as f64;
     let mut exhaustive = true;
     let mut decoder_disagreements = 0u64;
